@@ -116,6 +116,9 @@ pub fn check(p: &Prepared, input: &[u8], sched: Option<&Sched>) -> Option<String
 }
 
 pub fn replay(case: &Value) -> Option<String> {
+    if case["kind"].as_str() == Some("str-settings") {
+        return rewrite_str_settings_case(case["strict"].as_bool()?, case["esi"].as_bool()?, STR_SETTINGS_DOCS[case["doc"].as_u64()? as usize]);
+    }
     let cfg: Cfg = serde_json::from_value(case["cfg"].clone()).ok()?;
     let input = unhex(case["input_hex"].as_str()?);
     let sched: Option<Sched> = serde_json::from_value(case["sched"].clone()).ok()?;
@@ -175,6 +178,61 @@ fn sweep(ctx: &Ctx, name: &str, space: Space, cfgs: &[Prepared], lv: Levels) {
             ctx.sample(json!({"space": space.label(), "input": lossy(raw), "configs": cfgs.len(), "schedules_for_last_config": scheds.len()}));
         }
     });
+}
+
+/// `rewrite_str` given a `RewriteStrSettings` behaves like `rewrite_str` / `write`+`end` given
+/// `Settings` with the same flags and handlers (every combination of the two flags).
+fn rewrite_str_settings_case(strict: bool, esi: bool, doc: &str) -> Option<String> {
+    use lol_html::{RewriteStrSettings, Settings, element, rewrite_str};
+    use std::cell::RefCell;
+    use std::rc::Rc;
+    let run = |use_str_settings: bool| -> (Result<String, String>, Vec<String>) {
+        let log: Rc<RefCell<Vec<String>>> = Default::default();
+        let l2 = log.clone();
+        let h = element!("*", move |el| {
+            l2.borrow_mut().push(format!("{} can_have_content={} ns={}", el.tag_name(), el.can_have_content(), el.namespace_uri()));
+            Ok(())
+        });
+        let r = std::panic::catch_unwind(std::panic::AssertUnwindSafe(|| {
+            if use_str_settings {
+                rewrite_str(doc, RewriteStrSettings::new().append_element_content_handler(h).with_strict(strict).with_enable_esi_tags(esi))
+            } else {
+                rewrite_str(doc, Settings::new().append_element_content_handler(h).with_strict(strict).with_enable_esi_tags(esi))
+            }
+        }));
+        let res = match r {
+            Ok(Ok(s)) => Ok(s),
+            Ok(Err(e)) => Err(e.to_string()),
+            Err(_) => Err("panic".into()),
+        };
+        let l = log.borrow().clone();
+        (res, l)
+    };
+    let (a, la) = run(true);
+    let (b, lb) = run(false);
+    if a != b || la != lb {
+        return Some(format!("rewrite_str with RewriteStrSettings(strict={strict}, enable_esi_tags={esi}) on {doc:?}: {a:?} / {la:?}, with Settings and the same flags: {b:?} / {lb:?}"));
+    }
+    None
+}
+
+const STR_SETTINGS_DOCS: &[&str] = &["<esi:include src=a>x</esi:include><esi:comment t=1>", "<select><xmp><b>x</b></xmp>", "<p>t</p><svg><esi:include/></svg>", "<template><select></template><title>t</title>"];
+
+fn rewrite_str_settings_sweep(ctx: &Ctx) {
+    for strict in [false, true] {
+        for esi in [false, true] {
+            for (di, doc) in STR_SETTINGS_DOCS.iter().enumerate() {
+                ctx.exec(2);
+                ctx.validated(1);
+                ctx.nontrivial.insert(digest(&(strict, esi, di)));
+                if let Some(msg) = rewrite_str_settings_case(strict, esi, doc) {
+                    let case = json!({"kind": "str-settings", "strict": strict, "esi": esi, "doc": di});
+                    ctx.violation(msg, case, &|| rewrite_str_settings_case(strict, esi, doc));
+                }
+            }
+        }
+    }
+    ctx.level_done("RewriteStrSettings vs Settings: {strict} x {enable_esi_tags} x 4 documents through rewrite_str");
 }
 
 /// Documents whose sizes sit just below, at and just above the implementation's thresholds.
@@ -253,6 +311,7 @@ pub fn run_check(ctx: &Ctx) -> i32 {
         .collect();
     let l1 = Levels { l1: true, l2_max_len: 0, bytewise: true, empties: false };
     let k = F.len();
+    rewrite_str_settings_sweep(ctx);
     {
         let mut sc = prep_menu(&obs, &["everything", "el(a[b])", "text(title)+text(script)"], &[false], "UTF-8");
         sc.extend(prep_menu(&mark, &["mark-text(*)+comments(*)", "rewrite-el(*)", "mark-el(a)"], &[false], "UTF-8"));
